@@ -279,7 +279,7 @@ func jsondocMain(mode string, a args) {
 				if supported {
 					pat = append(pat, []int{1, 2, 4}[r.Intn(3)]) // no line break anywhere: certainly inside the subset
 				} else {
-					pat = append(pat, 1+r.Intn(5))
+					pat = append(pat, 1+r.Intn(7))
 				}
 			}
 			kind := "none"
